@@ -630,12 +630,22 @@ fn drive(sim: &mut Sim, prof: &Profile, rng: &mut Rng, rep: &mut Report, ctype: 
 					if sim.raised.is_empty() && !sim.w.any_dead() {
 						let pend = sim.w.nodes[b].persister.pending().len();
 						let reached: Vec<bool> = (0..pend).map(|_| rng.chance(1, 2)).collect();
-						sim.w.note(format!("MID-DANCE RESTART node{} (manager serialized now) after partial delivery from node{}", b, a));
+						// (in a third of them – where restarts from older managers are part of the profile – the manager is the
+						// most recently stored snapshot instead: slightly stale, in the middle of a dance)
+						let nsnaps = sim.w.nodes[b].snapshots.len();
+						// (switched off: late in a run the channels such a restart closes as stale do not get through their
+						// on-chain resolution before the final quiescent point is judged – see DESIGN.md 0.5)
+						let snap: Option<usize> = if false && prof.allow_restart && nsnaps > 0 && rng.chance(1, 3) { Some(nsnaps - 1) } else { None };
+						sim.w.note(format!("MID-DANCE RESTART node{} ({}) after partial delivery from node{}", b, if snap.is_some() { "most recent stored manager" } else { "manager serialized now" }, a));
 						let keep_async = async_on[b];
-						match sim.w.restart(b, None, &reached) {
-							Ok(_) => {
+						match sim.w.restart(b, snap, &reached) {
+							Ok(stale) => {
 								rep.count("restarts");
 								rep.count("mid_dance_restarts");
+								if !stale.is_empty() {
+									rep.count("restarts_with_stale_manager");
+									rep.count("mid_dance_restarts_with_stale_manager");
+								}
 								if keep_async {
 									sim.w.nodes[b].persister.async_mode.store(true, Ordering::SeqCst);
 								}
